@@ -66,7 +66,7 @@ def pseudo_rev(t, kf, kb, prod, major, minor, backend=None):
 
     """
     be = get_backend(backend)
-    return (
+    return prod + (
         -kb * prod
         + kf * major * minor
         + (kb * prod - kf * major * minor) * be.exp(-t * (kb + kf * major))
@@ -228,7 +228,7 @@ def binary_irrev_cstr(t, k, r, p, fr, fp, fv, n=1, backend=None):
     # Post processed using sympy's cse function.
     # (see _derive_analytic_cstr_bireac.ipynb)
     be = get_backend(backend)
-    atanh = getattr(be, "atanh", be.arctanh)
+    atanh = getattr(be, "atanh", None) or be.arctanh
     three = 3 * be.cos(0)
 
     x0 = 1 / k
